@@ -176,7 +176,7 @@ func ElideError(err error) string {
 	case *net.AddrError:
 		return t.Err + " " + elidedAddr
 	case *net.DNSError:
-		return "lookup " + elidedAddr + " on " + elidedAddr + ": " + t.Err
+		return "lookup " + elidedAddr + " on " + elidedAddr + ": " + elideAddrsInText(t.Err)
 	case *net.InvalidAddrError:
 		return "invalid address error"
 	case *net.UnknownNetworkError:
@@ -199,6 +199,22 @@ func ElideError(err error) string {
 		// does not contain sensitive information.
 		return fmt.Sprintf("network error: <%T>", t)
 	}
+}
+
+// elideAddrsInText scrubs the address looking words of a free-form error
+// description.  This is needed for *net.DNSError, as when the resolver fails to
+// talk to the DNS server the description is the text of the underlying
+// network error, addresses and all
+// (eg: "read udp 10.0.0.2:4242->10.0.0.1:53: i/o timeout").
+func elideAddrsInText(s string) string {
+	words := strings.Fields(s)
+	for i, w := range words {
+		addr := strings.TrimSuffix(w, ":")
+		if _, _, err := net.SplitHostPort(addr); err == nil || strings.Contains(w, "->") {
+			words[i] = elidedAddr + w[len(addr):]
+		}
+	}
+	return strings.Join(words, " ")
 }
 
 // ElideAddr transforms the string representation of the provided address based
